@@ -42,7 +42,7 @@ TARGETS = [
 ]
 BOUNDS = {
     "documents": "10 item kinds x 5 injection variants x 4 truthy values x caller opt-in on/off",
-    "environment": "gate functions: every ASCII string of length <= 4 as value of PYSIGMA_ALLOW_EXTERNAL_SOURCES / PYSIGMA_ALLOW_VARS_EXECUTION (symbolic) or unset; whole-pipeline runs: 12 representative values incl. unset",
+    "environment": "gate functions: every ASCII string of length <= 4 (quick) / <= 6 (thorough) as value of PYSIGMA_ALLOW_EXTERNAL_SOURCES / PYSIGMA_ALLOW_VARS_EXECUTION (symbolic) or unset; whole-pipeline runs: 12 representative values incl. unset",
     "paths": "vars file and allowed base built from 1..3 components out of {a, ab, b, ..}; realpath is identity or maps the vars path to an outside target (symlink)",
     "outside": "real file system / sockets / processes (replaced by stubs); pipeline resolver loading from directories",
 }
@@ -504,6 +504,7 @@ OBLIGATIONS = (
     [Ob("c16a_injection", {"KLO": k, "KHI": k + 1}, 900) for k in range(len(KINDS))]
     + [Ob("c16a_gate", {"ENVLEN": 4, "W": w}, 600) for w in range(4)]
     + [Ob("c16b_paths", {}, 900), Ob("c16b_nested", {}, 300)]
+    + [Ob("c16a_gate", {"ENVLEN": 6, "W": w}, 3000, tier="thorough") for w in range(4)]
 )
 
 SELFCHECKS = [
